@@ -276,7 +276,7 @@ def norm_fetch(obs, model):
 
 
 def run_steps(ctx, binp, ml, profile, seed, only=None, timeout=900):
-    """-> dict(lines, sequences, stats, mismatches [...], failures [...], spec_disagreements)"""
+    """-> dict(lines, stats, mismatches [...], failures [...], spec_disagreements, ...); streams the trace."""
     wd = workdir(ctx)
     trace = os.path.join(wd, "%s-%d%s.trace" % (profile, seed, "" if only is None else "-only%d" % only))
     cmd = [binp, "steps", profile, str(seed), trace] + ([str(only)] if only is not None else [])
@@ -284,140 +284,148 @@ def run_steps(ctx, binp, ml, profile, seed, only=None, timeout=900):
     if rc != 0:
         raise RuntimeError("schedh steps failed: " + out[-2000:])
     stats = json.loads([l for l in out.splitlines() if l.startswith("{")][-1])
-    cmds, obs, meta = [], [], []
+    inp, mout = trace + ".cmds", trace + ".model"
+    n = 0
+    with open(trace, encoding="utf-8") as f, open(inp, "w", encoding="utf-8") as g:
+        for line in f:
+            if not line.startswith("#"):
+                g.write(line.split("\t", 1)[0].rstrip("\n") + "\n")
+                n += 1
+    if ml is not None:
+        with open(mout, "w") as mo:
+            p = subprocess.run([ml, inp], stdout=mo, stderr=subprocess.PIPE, text=True, timeout=timeout)
+        if p.returncode != 0:
+            raise RuntimeError("model driver failed: " + p.stderr[-2000:])
+    res = {"lines": n, "stats": stats, "mismatches": [], "failures": [], "spec_disagreements": 0,
+           "api_calls": 0, "fetches": 0, "foreign": 0, "fetch_classes": {}, "result_classes": {}, "no_verdict": 0,
+           "trace": trace, "dropped_reports": 0}
+    trigs, reg = {}, {}   # oracle state for line-per-command traces
+    bad_seq = False
+    seq_cmds = []
     cur = ""
+    LIMIT = 200           # reports kept (counts stay exact)
+
+    def keep(lst, item):
+        if len(lst) < LIMIT:
+            lst.append(item)
+        else:
+            res["dropped_reports"] += 1
+
+    mf = open(mout, encoding="utf-8") if ml is not None else None
     with open(trace, encoding="utf-8") as f:
         for line in f:
             if line.startswith("#"):
                 cur = line[1:].strip()
                 continue
-            p = line.rstrip("\n").split("\t")
-            cmds.append(p[0])
-            obs.append(p[1] if len(p) > 1 else "")
-            meta.append(p[2] if len(p) > 2 else cur)
-    inp = trace + ".cmds"
-    with open(inp, "w", encoding="utf-8") as f:
-        f.write("\n".join(cmds) + "\n")
-    model = None
-    if ml is not None:
-        p = subprocess.run([ml, inp], stdout=subprocess.PIPE, stderr=subprocess.PIPE, text=True, timeout=timeout)
-        if p.returncode != 0:
-            raise RuntimeError("model driver failed: " + p.stderr[-2000:])
-        model = p.stdout.splitlines()
-        if len(model) != len(cmds):
-            raise RuntimeError("model driver printed %d lines for %d commands" % (len(model), len(cmds)))
-    res = {"lines": len(cmds), "stats": stats, "mismatches": [], "failures": [], "spec_disagreements": 0,
-           "api_calls": 0, "fetches": 0, "foreign": 0, "fetch_classes": {}, "result_classes": {}, "no_verdict": 0,
-           "trace": trace}
-    start = 0            # index of the last reset
-    trigs, reg = {}, {}  # oracle state for line-per-command traces
-    bad_seq = False
+            pp = line.rstrip("\n").split("\t")
+            c, o = pp[0], (pp[1] if len(pp) > 1 else "")
+            meta = pp[2] if len(pp) > 2 else cur
+            mline, sline = None, None
+            if mf is not None:
+                ms = mf.readline().rstrip("\n").split("\t")
+                mline, sline = ms[0], (ms[1] if len(ms) > 1 else "-")
+            if c.startswith("Q "):
+                # a whole API sequence on one line: results per call, final registry
+                parts = c.split(" ;; ")[1:]
+                tr, rg, outs = {}, {}, []
+                for pc in parts:
+                    t = pc.split()
+                    if t[0] == "T":
+                        tr[int(t[1])] = Trig(" ".join(t[2:]))
+                        outs.append("ok")
+                    else:
+                        r, calls = spec_api(rg, tr, int(t[1]), t[2:])
+                        outs.append(r + " [" + ",".join(calls) + "]")
+                        res["api_calls"] += 1
+                        cls = r.split(":")[0]
+                        res["result_classes"][cls] = res["result_classes"].get(cls, 0) + 1
+                want = " ;; ".join(outs) + " | " + reg_str(rg)
+                if o != want:
+                    keep(res["failures"], {"case": {"sequence": meta, "commands": parts, "profile": profile, "seed": seed},
+                                           "observed": o, "specification": want,
+                                           "why": ["API results / final registry differ from the sequential registry specification"]})
+                if mline is not None:
+                    if o != mline:
+                        keep(res["mismatches"], {"case": {"sequence": meta, "commands": parts, "profile": profile, "seed": seed},
+                                                 "observed": o, "model": mline})
+                    if sline is not None and sline != "-":
+                        # Coq's registry specification against this file's copy of it
+                        so = " ;; ".join(("-" if pc.startswith("T ") else x.split(" [")[0]) for pc, x in zip(parts, outs)) + " | " + reg_str(rg)
+                        if sline != so:
+                            res["spec_disagreements"] += 1
+                continue
+            t = c.split()
+            if t[0] == "reset":
+                trigs, reg, bad_seq, seq_cmds = {}, {}, False, []
+                continue
+            seq_cmds.append(c)
+            if t[0] == "T":
+                trigs[int(t[1])] = Trig(" ".join(t[2:]))
+                continue
 
-    def context(i):
-        return {"sequence": meta[i], "commands": cmds[start:i + 1][-80:], "step": cmds[i]}
+            def context():
+                return {"sequence": meta, "commands": seq_cmds[-80:], "step": c, "profile": profile, "seed": seed}
 
-    for i, c in enumerate(cmds):
-        o = obs[i]
-        mline, sline = (None, None)
-        if model is not None:
-            ms = model[i].split("\t")
-            mline, sline = ms[0], (ms[1] if len(ms) > 1 else "-")
-        if c.startswith("Q "):
-            # a whole API sequence on one line: results per call, final registry
-            parts = c.split(" ;; ")[1:]
-            tr, rg, outs = {}, {}, []
-            for pc in parts:
-                t = pc.split()
-                if t[0] == "T":
-                    tr[int(t[1])] = Trig(" ".join(t[2:]))
-                    outs.append("ok")
-                else:
-                    r, calls = spec_api(rg, tr, int(t[1]), t[2:])
-                    outs.append(r + " [" + ",".join(calls) + "]")
-                    res["api_calls"] += 1
-                    cls = r.split(":")[0]
-                    res["result_classes"][cls] = res["result_classes"].get(cls, 0) + 1
-            want = " ;; ".join(outs) + " | " + reg_str(rg)
-            if o != want:
-                res["failures"].append({"case": {"sequence": meta[i], "commands": parts, "profile": profile, "seed": seed},
-                                        "observed": o, "specification": want,
-                                        "why": ["API results / final registry differ from the sequential registry specification"]})
-            if mline is not None:
-                if o != mline:
-                    res["mismatches"].append({"case": {"sequence": meta[i], "commands": parts, "profile": profile, "seed": seed},
-                                              "observed": o, "model": mline})
-                if sline is not None and sline != "-":
-                    # Coq's registry specification against this file's copy of it
-                    so = " ;; ".join(("-" if pc.startswith("T ") else x.split(" [")[0]) for pc, x in zip(parts, outs)) + " | " + reg_str(rg)
-                    if sline != so:
-                        res["spec_disagreements"] += 1
-            continue
-        t = c.split()
-        if t[0] == "reset":
-            start, trigs, reg, bad_seq = i, {}, {}, False
-            continue
-        if t[0] == "T":
-            trigs[int(t[1])] = Trig(" ".join(t[2:]))
-            continue
-        oparts = o.split(" | ")
-        oreg = parse_reg(oparts[1]) if len(oparts) == 2 else None
-        # --- model ---
-        if mline is not None and o != mline:
-            ml2 = norm_fetch(o, mline) if t[0] == "F" else mline
-            if o != ml2 and not bad_seq:
-                d = context(i)
-                d.update({"profile": profile, "seed": seed})
-                res["mismatches"].append({"case": d, "observed": o, "model": mline})
-        # --- oracle ---
-        want = None
-        if t[0] == "A":
-            res["api_calls"] += 1
-            r, calls = spec_api(reg, trigs, int(t[1]), t[2:])
-            cls = r.split(":")[0]
-            res["result_classes"][cls] = res["result_classes"].get(cls, 0) + 1
-            want = r + " [" + ",".join(calls) + "] | " + reg_str(reg)
+            oparts = o.split(" | ")
+            oreg = parse_reg(oparts[1]) if len(oparts) == 2 else None
+            # --- model ---
+            if mline is not None and o != mline:
+                ml2 = norm_fetch(o, mline) if t[0] == "F" else mline
+                if o != ml2 and not bad_seq:
+                    keep(res["mismatches"], {"case": context(), "observed": o, "model": mline})
+            # --- oracle ---
+            want = None
             got = o
-        elif t[0] == "F":
-            res["fetches"] += 1
-            hint = None if t[3] == "-" else t[3] + "/" + t[4]
-            susp_before = {k for k, v in reg.items() if v[0]}
-            w = spec_fetch(reg, trigs, int(t[1]), int(t[2]), hint)
-            if w is None:
-                res["no_verdict"] += 1
-                want = None
+            susp_before = ()
+            if t[0] == "A":
+                res["api_calls"] += 1
+                r, calls = spec_api(reg, trigs, int(t[1]), t[2:])
+                cls = r.split(":")[0]
+                res["result_classes"][cls] = res["result_classes"].get(cls, 0) + 1
+                want = r + " [" + ",".join(calls) + "] | " + reg_str(reg)
+            elif t[0] == "F":
+                res["fetches"] += 1
+                hint = None if t[3] == "-" else t[3] + "/" + t[4]
+                susp_before = {k for k, v in reg.items() if v[0]}
+                w = spec_fetch(reg, trigs, int(t[1]), int(t[2]), hint)
+                if w is None:
+                    res["no_verdict"] += 1
+                else:
+                    cls = "empty" if w.startswith("none") else ("valid" if w.split(" ")[0].endswith(":1") else
+                                                                ("misfire" if " M" in w else "requeued"))
+                    res["fetch_classes"][cls] = res["fetch_classes"].get(cls, 0) + 1
+                    want = w + " | " + reg_str(reg)
+                    ot = oparts[0].split(" ")
+                    if len(ot) == 4:
+                        if ot[2] == "?":
+                            wt = w.split(" ")
+                            wt[2] = "?"
+                            want = " ".join(wt) + " | " + reg_str(reg)
+                        got = " ".join(ot[:3]) + " | " + (oparts[1] if len(oparts) == 2 else "")
             else:
-                cls = "empty" if w.startswith("none") else ("valid" if w.split(" ")[0].endswith(":1") else
-                                                            ("misfire" if " M" in w else "requeued"))
-                res["fetch_classes"][cls] = res["fetch_classes"].get(cls, 0) + 1
-                want = w + " | " + reg_str(reg)
-                ot = oparts[0].split(" ")
-                if len(ot) == 4:
-                    if ot[2] == "?":
-                        wt = w.split(" ")
-                        wt[2] = "?"
-                        want = " ".join(wt) + " | " + reg_str(reg)
-                    got = " ".join(ot[:3]) + " | " + (oparts[1] if len(oparts) == 2 else "")
-                else:
-                    got = o
-        else:
-            res["foreign"] += 1
-            spec_foreign(reg, t[1:])
-            want = "ok | " + reg_str(reg)
-            got = o
-        if want is not None and got != want and not bad_seq:
-            d = context(i)
-            d.update({"profile": profile, "seed": seed})
-            fl = {"case": d, "observed": o, "specification": want,
-                  "why": ["the implementation's answer differs from the property's specification of this step"]}
-            if t[0] == "F" and want.split(":")[0] in susp_before:
-                fl["popped_suspended"] = True
-            res["failures"].append(fl)
-            bad_seq = True  # later steps of the sequence follow from this one
-        # resynchronise the oracle with what the implementation holds now
-        if oreg is not None:
-            reg = oreg
-        if want is None and oreg is None:
-            bad_seq = True
+                res["foreign"] += 1
+                spec_foreign(reg, t[1:])
+                want = "ok | " + reg_str(reg)
+            if want is not None and got != want and not bad_seq:
+                fl = {"case": context(), "observed": o, "specification": want,
+                      "why": ["the implementation's answer differs from the property's specification of this step"]}
+                if t[0] == "F" and want.split(":")[0] in susp_before:
+                    fl["popped_suspended"] = True
+                keep(res["failures"], fl)
+                bad_seq = True  # later steps of the sequence follow from this one
+            # resynchronise the oracle with what the implementation holds now
+            if oreg is not None:
+                reg = oreg
+            if want is None and oreg is None:
+                bad_seq = True
+    if mf is not None:
+        mf.close()
+    if not res["failures"] and not res["mismatches"]:
+        for fn in (trace, inp, mout):   # large; kept only when there is something to look at
+            try:
+                os.remove(fn)
+            except OSError:
+                pass
     return res
 
 
@@ -433,14 +441,15 @@ def tags_of(f):
         op, wp = o.split(" | "), w.split(" | ")
         state_differs = len(op) != 2 or len(wp) != 2 or op[1] != wp[1]
         calls_differ = op[0].split(" ")[1:] != wp[0].split(" ")[1:]
+        both_ok = op[0].startswith("ok") and wp[0].startswith("ok")
         ok_differs = op[0].startswith("ok") != wp[0].startswith("ok")
         if t[2] in "PRDC" and (state_differs or calls_differ or ok_differs):
             tg.add("C08")      # the call did not take the effect on firing it should have (a wrong error class alone is C09's)
-        if t[2] in "SR" and (state_differs or calls_differ):
+        if t[2] in "SR" and (calls_differ or (both_ok and state_differs)):
             tg.add("C04")      # initial / resumed fire time
         return tg
     if t[0] == "X":
-        return {"C03", "C09"}
+        return {"C09"}         # the harness's own queue calls: the queue does not meet the contract the model assumes
     op, wp = o.split(" | "), w.split(" | ")
     ot, wt = op[0].split(" "), wp[0].split(" ")
     tg = set()
